@@ -22,6 +22,7 @@ import (
 	"net/url"
 	"os"
 	"path/filepath"
+	"runtime/debug"
 	"sort"
 	"strings"
 	"time"
@@ -436,6 +437,9 @@ func (s *srv) send(q areq, timeout time.Duration) (r aresp) {
 		defer func() {
 			if p := recover(); p != nil {
 				out.Panic = normPanic(p)
+				if os.Getenv("C17_TIMING") != "" {
+					debug.PrintStack()
+				}
 			}
 		}()
 		rec := httptest.NewRecorder()
@@ -808,9 +812,6 @@ func runItem(res *vk.Result, name, mode string, only *areq) {
 				res.Violate(scU, "C17|auth-wrap|store-changed|blob-removed", fmt.Sprintf("%s/%s: %s was in %s before the unauthenticated pass and is gone after it", name, mode, ref, b), map[string]any{"part": "auth", "config": name, "mode": mode})
 			}
 		}
-		if after[b] != v {
-			scU.Outcome("background-change|" + b)
-		}
 	}
 	for b, v := range after {
 		if strings.Contains(v, s.W.Ref.String()) {
@@ -840,6 +841,7 @@ func runItem(res *vk.Result, name, mode string, only *areq) {
 				st := fmt.Sprint(r.Status)
 				if r.Panic != "" {
 					st = "panic"
+					lap(fmt.Sprintf("authed request %v panicked: %s", q, r.Panic))
 				}
 				scA.Outcome(fmt.Sprintf("authed|%s|%s|%s|%s", r.Pattern, fam.name, m, st))
 				if r.Status/100 == 2 {
